@@ -8,7 +8,7 @@ import itertools
 from mc import pool, wire, refms, seams
 
 STEPS = ["GREETING", "STARTTLS", "TLSCAPS", "AUTHRESULT"]
-ACTIONS = ["NO", "BYE", "SILENCE", "EOF", "GARBAGE"]
+ACTIONS = ["NO", "BYE", "SILENCE", "EOF", "GARBAGE", "BYE-REFERRAL"]
 SCRIPT_VERBS = refms.SCRIPT_VERBS
 
 KNOWN_ARGS = {
@@ -109,7 +109,7 @@ def monitor(s, servers, starttls_requested, history, outcomes):
     return bad
 
 
-def run_history(capset, starttls, faults1, wrap_fails, pre, post, second, faults2, post2, auth_ok=True):
+def run_history(capset, starttls, faults1, wrap_fails, pre, post, second, faults2, post2, auth_ok=True, wfault=None):
     srv1 = make_server(capset, faults1, auth_ok)
     s = wire.Session(srv1)
     s.new_client()
@@ -117,6 +117,10 @@ def run_history(capset, starttls, faults1, wrap_fails, pre, post, second, faults
         s.env["wrap_fails"] = True
     outcomes = []
     servers = [srv1]
+    # should the client open a connection of its own accord (e.g. following a referral) it reaches a fresh, fault-free server
+    spare = make_server(capset, [], auth_ok)
+    servers.append(spare)
+    s.env["next_server"] = spare
 
     def do(name, phase):
         srv = s.server
@@ -131,6 +135,9 @@ def run_history(capset, starttls, faults1, wrap_fails, pre, post, second, faults
 
     for name in pre:
         do(name, "before connect")
+    if wfault is not None:
+        import socket as _socket
+        s.plain.write_fault = (wfault[1], lambda: _socket.timeout("timed out"), wfault[0])
     o1 = s.call("connect", "user", "pass", starttls=starttls)
     for name in post:
         do(name, "after connect")
@@ -182,23 +189,27 @@ def task(t):
                     # every public method once before connect, once after, and after a second connect that may fail
                     second_faults = [None, (), (("AUTHRESULT", 0, "NO"),), (("GREETING", 0, "BYE"),), (("AUTHRESULT", 0, "SILENCE"),),
                                      (("STARTTLS", 0, "NO"),), (("TLSCAPS", 0, "EOF"),), "REFUSED", "WRAPFAIL"]
-                    for f2 in second_faults:
+                    # (f2, wfault): a second connect that may fail, or a send on the plain socket that fails after k octets
+                    variants = [(f2, None) for f2 in second_faults]
+                    if not faults1 and not wrap_fails and auth_ok:
+                        variants += [(None, (j, k)) for j in (0, 1, 2) for k in (0, 7)]
+                    for f2, wfault in variants:
                         if f2 is not None and (faults1 or wrap_fails or not auth_ok):
                             continue  # second-connect histories start from a successful first session
                         bad, o1, o2, outs = run_history(capset, starttls, list(faults1), wrap_fails, names, names, f2 is not None,
-                                                        f2 if isinstance(f2, str) else list(f2 or ()), names, auth_ok)
+                                                        f2 if isinstance(f2, str) else list(f2 or ()), names, auth_ok, wfault)
                         n += 1
-                        distinct.add((starttls, faults1, wrap_fails, auth_ok, f2, o1.key(with_err=False), o2.key(with_err=False) if o2 else None))
+                        distinct.add((starttls, faults1, wrap_fails, auth_ok, f2, wfault, o1.key(with_err=False), o2.key(with_err=False) if o2 else None))
                         for clause, text in bad[:3]:
                             viols.append({"property": "C10", "engine": "wire",
                                           "signature": ["C10", capset + ("+starttls" if starttls else "") + ("/okform%d" % okform if okform else "") + ("/final-sasl" if FINAL_SASL[0] else ""),
-                                                        "first:%s wrap_fails=%s auth=%s second:%s" % ("+".join("%s@%s" % (a, st) for st, _k, a in faults1) or "ok", wrap_fails,
+                                                        "first:%s wrap_fails=%s auth=%s second:%s" % (("+".join("%s@%s" % (a, st) for st, _k, a in faults1) or "ok") + ("/send-fails@%d" % wfault[0] if wfault else ""), wrap_fails,
                                                                                                     "OK" if auth_ok else "NO",
                                                                                                     "none" if f2 is None else (f2 if isinstance(f2, str) else ("+".join("%s@%s" % (a, st) for st, _k, a in f2) or "ok"))),
                                                         clause],
                                           "what": text,
                                           "case": {"final_sasl": FINAL_SASL[0], "okform": okform, "capset": capset, "starttls": starttls, "faults1": [list(f) for f in faults1], "wrap_fails": wrap_fails,
-                                                   "auth_ok": auth_ok, "second": f2 is not None, "faults2": f2 if isinstance(f2, str) else [list(f) for f in (f2 or ())]},
+                                                   "auth_ok": auth_ok, "wfault": list(wfault) if wfault else None, "second": f2 is not None, "faults2": f2 if isinstance(f2, str) else [list(f) for f in (f2 or ())]},
                                           "witness": "capabilities=%s starttls=%s faults=%r wrap_fails=%s auth_ok=%s second_connect=%r" % (capset, starttls, faults1, wrap_fails, auth_ok, f2),
                                           "observed": "connect: %s / %s" % (o1.brief(), o2.brief() if o2 else None)})
                         if sample is None and starttls and not faults1 and f2 is None and not bad:
@@ -230,7 +241,7 @@ def replay(payload):
     FINAL_SASL[0] = bool(c.get("final_sasl"))
     names = public_callables()
     bad, o1, o2, outs = run_history(c["capset"], c["starttls"], [tuple(f) for f in c["faults1"]], c["wrap_fails"], names, names, c["second"],
-                                    c["faults2"] if isinstance(c["faults2"], str) else [tuple(f) for f in c["faults2"]], names, c["auth_ok"])
+                                    c["faults2"] if isinstance(c["faults2"], str) else [tuple(f) for f in c["faults2"]], names, c["auth_ok"], tuple(c["wfault"]) if c.get("wfault") else None)
     out = []
     for clause, text in bad:
         sig = list(payload["signature"])
